@@ -26,6 +26,8 @@ type EvalCtx struct {
 	pkg     *types.Package // scope for package-level names
 	conFile string
 	bound   map[string]Term // quantifier variables
+	wantAddr bool
+	fr0     *frame
 }
 
 func (fe *FnExec) ctxFor(fr *frame, st *State) *EvalCtx {
@@ -40,6 +42,9 @@ func (fe *FnExec) ctxFor(fr *frame, st *State) *EvalCtx {
 	}
 	if fr.con != nil {
 		c.conFile = fr.con.File
+		if !fr.inlined {
+			fe.bindLets(fr, c)
+		}
 	}
 	return c
 }
@@ -216,7 +221,10 @@ func (c *EvalCtx) localByName(name string) (Val, bool) {
 			}
 			return c.fe.zeroVal(p.Pointee), true
 		}
-		return p, true // struct local in the heap model: its address
+		if c.wantAddr {
+			return p, true
+		}
+		return c.fe.load(c.st, p), true // struct local in the heap model: its value
 	}
 	// captured variables of a closure
 	for _, fv := range fn.FreeVars {
@@ -452,6 +460,20 @@ func (c *EvalCtx) evalCall(x *ast.CallExpr) Val {
 			return c.eval(args[0])
 		}
 		return c.withState(c.old).eval(args[0])
+	case "athead":
+		// athead(k, e): e evaluated in the state at the head of loop[k] (start of the current iteration)
+		k := 0
+		if bl, ok := args[0].(*ast.BasicLit); ok {
+			k, _ = strconv.Atoi(bl.Value)
+		}
+		if c.fr != nil {
+			for _, li := range c.fr.loops {
+				if li.ord == k && li.headState != nil {
+					return c.withState(li.headState).eval(args[1])
+				}
+			}
+		}
+		return c.fail("athead(%d, ...): no such loop head state", k)
 	case "len":
 		return IntV{fe.lenOf(c.eval(args[0]))}
 	case "cap":
@@ -513,6 +535,29 @@ func (c *EvalCtx) evalCall(x *ast.CallExpr) Val {
 		pred := "impl." + tn
 		fe.eng.noteIfaceName(pred)
 		return BoolV{tAnd(tNot(tEq(termOf(v), "0")), sx(sym(pred), sx("dyn", termOf(v))))}
+	case "objinv":
+		// objinv(x): the object invariant(s) of x, for whichever in-repo type with invariants x has
+		v := c.eval(args[0])
+		var cs []Term
+		if obj, ok := fe.objOf(v); ok {
+			for _, inv := range fe.invsOf(obj.Pointee) {
+				cs = append(cs, fe.invCtx(c.st, obj).evalBool(inv.X))
+			}
+			return BoolV{tAnd(cs...)}
+		}
+		ref := termOf(v)
+		for _, tn := range sortedKeys(fe.eng.voc.TypeInvs) {
+			T := fe.eng.lookupType(tn)
+			if T == nil {
+				continue
+			}
+			cond := tAnd(sx("<", "HW", ref), tEq(sx("dyn", ref), tInt(int64(fe.tid(types.NewPointer(T))))))
+			obj := PtrV{Base: ref, Prefix: typeName(T), Pointee: T}
+			for _, inv := range fe.invsOf(T) {
+				cs = append(cs, tImp(cond, fe.invCtx(c.st, obj).evalBool(inv.X)))
+			}
+		}
+		return BoolV{tAnd(cs...)}
 	case "freshobj":
 		// freshobj(x): x was allocated by this call (distinct from everything that existed before)
 		v := termOf(c.eval(args[0]))
@@ -681,6 +726,11 @@ func (fe *FnExec) assignLvalue(ctx *EvalCtx, st *State, x *CExpr, nv Val) {
 		}
 	case *ast.StarExpr:
 		v := ctx.eval(l.X)
+		if rv, ok := v.(RefV); ok {
+			if t, ok := fe.ifaceType[rv.T]; ok {
+				v = PtrV{Base: rv.T, Prefix: typeName(t), Pointee: t}
+			}
+		}
 		if p, ok := v.(PtrV); ok {
 			if nv == nil {
 				nv = fe.freshVal(p.Pointee, "mod")
@@ -689,7 +739,9 @@ func (fe *FnExec) assignLvalue(ctx *EvalCtx, st *State, x *CExpr, nv Val) {
 			return
 		}
 	case *ast.SelectorExpr:
-		base := ctx.eval(l.X)
+		ctx2 := *ctx
+		ctx2.wantAddr = true
+		base := ctx2.eval(l.X)
 		if b, ok := base.(PtrV); ok {
 			if stt, ok := b.Pointee.Underlying().(*types.Struct); ok {
 				_, path := findField(stt, l.Sel.Name)
